@@ -45,10 +45,10 @@ type c09Cfg struct {
 }
 
 type c09Op struct {
-	K    string      `json:"k"`
-	Cfg  c09Cfg      `json:"cfg"`
-	Warm bool        `json:"warm"`
-	Gs   [][]c09Act  `json:"gs"`
+	K    string     `json:"k"`
+	Cfg  c09Cfg     `json:"cfg"`
+	Warm bool       `json:"warm"`
+	Gs   [][]c09Act `json:"gs"`
 }
 
 func init() {
